@@ -15,7 +15,9 @@ for P in "$@"; do
   VERIF_REPO="$SCR/repo" VERIF_OUT="$SCR/out" "$HERE/vcheck" "$P" --tier "${TIER:-quick}" > "$SCR/out/$P.log" 2>&1
   rc=$?
   case $rc in
-    1) echo "CAUGHT  $P $(basename "$PATCH"): $(grep -m1 -o 'witness\[[^]]*\]' "$SCR/out/$P.log")";;
+    1) if grep -q "^VIOLATION property=$P " "$SCR/out/$P.log"; then
+         echo "CAUGHT  $P $(basename "$PATCH"): $(grep -m1 -o 'witness\[[^]]*\]' "$SCR/out/$P.log")"
+       else echo "BROKEN  $P $(basename "$PATCH"): $(tail -2 "$SCR/out/$P.log" | cut -c1-200)"; rc_all=1; fi;;
     0) echo "MISSED  $P $(basename "$PATCH")"; rc_all=1;;
     *) echo "INCONCLUSIVE($rc) $P $(basename "$PATCH"): $(grep -m1 INCONCLUSIVE "$SCR/out/$P.log" | cut -c1-300)"; rc_all=1;;
   esac
